@@ -45,6 +45,7 @@ FAMILY = {
                                ("StreamSrv_cover_c10_qj.cfg", False, True, False, {"s1": True})]},
         "gen": "StreamSrv_gen_c10.cfg",
         "witness": ("StreamSrv_mc_c10_q2.cfg", ["W_NoJsonBody", "W_NoStandaloneNested"]),
+        "witness3": ("StreamSrv_mc_c10_q1.cfg", ["W_NoCancelNoticeSeen"]),
         "witness2": [("StreamSrv_mc_c10_q4.cfg", ["W_NoDupRefused", "W_NoHeldPost"]), ("StreamSrv_mc_c10_q5.cfg", ["W_NoBroadcastSeen"])],
     },
 }
@@ -95,6 +96,14 @@ CORNERS = {
          "get|g1|s2|sa|none get|g2|s1|sa|none post|s1|r1 post|s2|r1 post|s3|r1 upd|s1|r1 emit|s2|r1 upd|s2|r1 ret|s2|r1 upd|s1|r1 ret|s1|r1 ret|s3|r1"),
         ("broadcast-store-json", (True, True, False), {"s1": True, "s2": True},
          "get|g1|s2|sa|none post|s1|r2 post|s2|r2 upd|s1|r2 cut|g1 upd|s2|r2 get|g2|s2|sa|0 ret|s1|r2 ret|s2|r2"),
+        ("abandoned-nested-call-no-standalone", (False, False, False), {"s1": True, "s2": False},
+         "post|s1|r1 post|s2|r1 sreq|s1|r1 sreq|s2|r1 abandon|s1|r1 emit|s1|r1 abandon|s2|r1 ret|s1|r1 ret|s2|r1"),
+        ("abandoned-nested-call-standalone-attached", (False, False, False), {"s1": False},
+         "get|g1|s1|sa|none post|s1|r1 post|s1|r2 sreq|s1|r2 sreq|s1|r1 abandon|s1|r1 ans|s1|r2 sreq|s1|r2 abandon|s1|r2 ret|s1|r1 ret|s1|r2"),
+        ("abandoned-nested-call-store-detached", (True, False, False), {"s1": True},
+         "get|g1|s1|sa|none post|s1|r1 sreq|s1|r1 cut|p.s1.r1 abandon|s1|r1 get|g2|s1|r1|1 emit|s1|r1 sreq|s1|r1 abandon|s1|r1 ret|s1|r1"),
+        ("abandoned-nested-call-json", (True, True, False), {"s1": True},
+         "get|g1|s1|sa|none post|s1|r1 sreq|s1|r1 abandon|s1|r1 ret|s1|r1"),
         ("same-id-two-sessions-sse", (False, False, False), {"s1": True, "s2": False},
          "post|s1|r1 post|s2|r1 emit|s2|r1 emit|s1|r1 sreq|s1|r1 ans|s1|r1 ret|s2|r1 emit|s1|r1 ret|s1|r1"),
         ("same-id-three-sessions-json", (False, True, False), {"s1": True, "s2": False, "s3": False},
@@ -142,6 +151,8 @@ def label_steps(name, a):
         return ([["gateO", "p.%s.%s" % (a[0], a[1])]] if a[2] else []) + [["post", a[0], a[1]]]
     if name == "SBcast":
         return [["upd", a[0], a[1]]]
+    if name == "SAbandon":
+        return [["abandon", a[0], a[1]]]
     if name in ("SEmit", "SSreq", "SRet"):
         op = {"SEmit": "emit", "SSreq": "sreq", "SRet": "ret"}[name]
         return gate(a[2], [a[0], a[1]]) + [[op, a[0], a[1]]]
@@ -495,7 +506,7 @@ def coverage(v, traces):
         distinct.add(key)
         ops = {s[0] for s in steps}
         nsess = len({s[1] for s in steps if s[0] == "post"})
-        if ops & {"cut", "get", "gateA", "gateF", "gateW", "gateO", "gateM", "upd", "del", "delf"} or nsess > 1:
+        if ops & {"cut", "get", "gateA", "gateF", "gateW", "gateO", "gateM", "upd", "abandon", "del", "delf"} or nsess > 1:
             nontrivial += 1
     v.cov["evaluations"] = evals
     v.cov["traces_validated_against_impl"] = len(traces)
@@ -549,7 +560,7 @@ def family_run(pid, tier, seed, replay):
                 if r2.violation != wit:
                     raise vlib.MachineryError("vacuity: witness %s not reachable in %s (%s)" % (wit, base, r2.error or r2.violation))
             nw = len(wits)
-            for base2, wits2 in fam.get("witness2", []):
+            for base2, wits2 in fam.get("witness2", []) + ([(fam["witness3"][0], fam["witness3"][1])] if "witness3" in fam else []):
                 cfgtxt = re.sub(r"(?m)^INVARIANTS.*$", "", open(os.path.join(vlib.SPEC, base2)).read())
                 for wit in wits2:
                     wd = vlib.scratch("tlc-")
@@ -561,7 +572,7 @@ def family_run(pid, tier, seed, replay):
             v.cov["vacuity_witnesses_reached"] = nw
         phase("witness")
         # 2. scenarios generated by TLC from the model
-        limit = 60 if tier == "quick" else 4000
+        limit = 60 if tier == "quick" else 3000
         for i, (cfg, store, js, stateless, prime) in enumerate(fam["cover"][tier]):
             rows += cover_scenarios(v, cfg, store, js, stateless, prime, seed, rnd, limit, "cov%d." % i)
         n_cover = len(rows)
@@ -575,7 +586,7 @@ def family_run(pid, tier, seed, replay):
         else:
             rows += [dict(r, id="x-" + r["id"]) for r in corner_scenarios("C10", rnd)]
     phase("simulate")
-    nrand = 0 if replay else (200 if tier == "quick" else 3000)
+    nrand = 0 if replay else (200 if tier == "quick" else 2500)
     obs, orows = run_harness(pid, rows, seed, nrand)
     phase("go")
     traces, bad = judge(v, pid, obs, orows, {r["id"]: r for r in rows})
